@@ -150,6 +150,87 @@ def gen_cases(ctx, tg, n, nperturb):
     return cases
 
 
+# ---- different locations whose printed forms coincide -----------------------------------
+O = ["top", "o", False]
+OY = ["top", "o.y", False]            # a second container LABELLED 'o.y': prints like the attribute o.y
+
+
+def _at(owner, name):
+    return ["attr", owner, ["const", rs.Sx(name)]]
+
+
+def _it(owner, k):
+    return ["item", owner, ["const", k]]
+
+
+# (location A, location B, both evaluable in the standard state)
+TWINS = [
+    (_at(_at(O, "p"), "x"), _at(O, "p.x"), True),                     # o.p.x          vs getattr(o, 'p.x')
+    (_at(_at(O, "p"), "q"), _at(O, "p.q"), True),                     # o.p.q          vs getattr(o, 'p.q')
+    (_it(_at(_at(O, "p"), "q"), rs.I(0)), _at(O, "p.q[0]"), True),    # o.p.q[0]       vs getattr(o, 'p.q[0]')
+    (_it(_at(O, "y"), rs.Sx("k")), _it(OY, rs.Sx("k")), False),       # (o.y)['k']     vs <container 'o.y'>['k']
+    (_at(_at(O, "y"), "z"), _at(OY, "z"), False),                     # (o.y).z        vs <container 'o.y'>.z
+    (_at(_at(_at(O, "p"), "x"), "r"), _at(_at(O, "p.x"), "r"), False),  # the collision one level up the owner chain
+]
+
+
+def twin_term(rng, tg, a, b):
+    """an expression that reads both locations, directly or nested below other nodes"""
+    if rng.random() < 0.5:
+        a, b = b, a
+    wrap = lambda t: rng.choice([t, t, ["un", rng.choice(tg.un), t], ["builtin", rng.randrange(6), t, []],
+                                 ["bin", rng.choice(tg.bin), t, tg.const()], ["bin", rng.choice(tg.bin), tg.anyop(1), t]])
+    k = rng.random()
+    if k < 0.45:
+        t = ["bin", rng.choice(tg.bin), wrap(a), wrap(b)]
+    elif k < 0.6:
+        t = ["call", tg.anyop(0), [wrap(a)], [["k", wrap(b)]]]
+    elif k < 0.75:
+        t = ["builtin", rng.randrange(6), wrap(a), [wrap(b)]]
+    elif k < 0.9:
+        t = ["item", wrap(a), wrap(b)]                                   # one as owner, the other inside a computed key
+    else:
+        t = ["bin", rng.choice(tg.bin), ["bin", rng.choice(tg.bin), a, tg.anyop(1)], ["call", b, [a], []]]
+    return t if rng.random() < 0.6 else ["bin", rng.choice(tg.bin), tg.anyop(2), t]
+
+
+def twin_state(rng):
+    st = gen_state(rng)
+    st.append(["o.y", ["d", [[rs.Sx("k"), rs.I(rng.choice([1, 4, 7]))]]]])
+    return st
+
+
+def term_to_pexp(t):
+    k = t[0]
+    if k == "top":
+        return t
+    if k == "attr":
+        return ["attr", term_to_pexp(t[1]), t[2][1][1]]
+    if k == "item":
+        return ["item", term_to_pexp(t[1]), ["val", t[2][1]]]
+    raise ValueError(t)
+
+
+def gen_twin_cases(ctx, tg, n):
+    cases = []
+    for j in range(n):
+        a, b, evaluable = TWINS[j % len(TWINS)]
+        if evaluable and ctx.rng.random() < 0.4:
+            # operator-built, evaluable: also the perturbation oracle (changing either location moves the value)
+            pa, pb = term_to_pexp(a), term_to_pexp(b)
+            if ctx.rng.random() < 0.5:
+                pa, pb = pb, pa
+            p = ctx.rng.choice([["bin", "OAdd", pa, pb], ["bin", "OSub", ["builtin", "FAbs", pa, []], ["un", "UNeg", pb]],
+                                ["bin", "OMul", ["bin", "OAdd", pa, rs.val(1)], ["bin", "OAdd", rs.val(2), pb]]])
+            if j % len(TWINS) == 1:      # o.p.q is a list: only its length-free use
+                p = ["bin", "OAdd", ["item", pa if pa[1][0] == "attr" else pb, rs.val(0)], pb if pa[1][0] == "attr" else pa]
+            cases.append({"pexp": p, "state": twin_state(ctx.rng), "objattr": rs.OBJATTR, "perturb": True, "out": ["c", "out"], "twin": j % len(TWINS)})
+        else:
+            t = twin_term(ctx.rng, tg, a, b)
+            cases.append({"term": t, "state": twin_state(ctx.rng), "objattr": rs.OBJATTR, "wellformed": wellformed(t), "twin": j % len(TWINS)})
+    return cases
+
+
 def run_cases(cases, ids):
     classes, fns = ids
     parts = list(vlib.chunks(cases, max(1, (len(cases) + 15) // 16)))
@@ -165,7 +246,9 @@ def run(ctx):
                 "positional and keyword arguments) filled with a reference or a constant, 10% deliberately ill-formed (constant in an "
                 "unguarded slot: both sides must raise); plus operator-built expressions with constant keys for the perturbation oracle; "
                 "compared: _get_dependencies() as a set of terms / None / exception vs model deps over the regenerated tables, and vs the "
-                "syntactic occurrence list; non-trivial = a (class, slot) pair holding a reference, and every perturbation case; "
+                "syntactic occurrence list; plus expressions that read TWO DIFFERENT locations whose printed forms coincide (o.p.x vs getattr(o,'p.x'), "
+                "o.p.q[0] vs getattr(o,'p.q[0]'), attribute o.y vs a container labelled 'o.y', the same one level up the owner chain), side by side and "
+                "nested below other nodes, judged structurally (owner chain, key, step kind); non-trivial = a (class, slot) pair holding a reference, and every perturbation case; "
                 "distinct by (class, slot) and by expression")
     proof_ok = vlib.standard_proof_part(ctx, "props/C05.v", allowed_axioms=(), extra_targets=["run/RunRefs.vo"], translators=["refs"])
     classes, fns, iderr = rs.ids()
@@ -176,17 +259,22 @@ def run(ctx):
     conc = concrete(info["compiled"])
     unknown_cls = [n for n in conc if n not in classes] + [n for n in concrete(info["pure"]) if n not in conc]
     tg = TermGen(ctx.rng, classes, info["compiled"])
-    cases = gen_cases(ctx, tg, ctx.pick(700, 40000), ctx.pick(150, 8000))
+    cases = gen_cases(ctx, tg, ctx.pick(700, 40000), ctx.pick(150, 8000)) + gen_twin_cases(ctx, tg, ctx.pick(180, 6000))
     res, unknown = run_cases(cases, ids)
+    cerrs = rs.case_errors(res)
     unknown = sorted(set(unknown) | set(unknown_cls))
 
     oracle_fail, build_diff = [], []
     seen_cls, seen_slots = set(), set()
     for i, c in enumerate(cases):
+        if rs.has_error(res, i):
+            continue
         for b in ("compiled", "pure"):
             r = res[b][i]
             if r.get("oracle"):
                 oracle_fail.append((i, b))
+        if "twin" in c:
+            ctx.nontrivial.add(f"twin:{c['twin']}:{'perturb' if c.get('perturb') else c['term'][0]}")
         a, p = res["compiled"][i], res["pure"][i]
         if a["term"] != p["term"] or a["deps"][0] != p["deps"][0] or (a["deps"][0] == "set" and sorted(map(json.dumps, a["deps"][1])) != sorted(map(json.dumps, p["deps"][1]))):
             build_diff.append(i)
@@ -199,6 +287,8 @@ def run(ctx):
     items, idx, unrep = [], [], []
     for i, c in enumerate(cases):
         r = res["compiled"][i]
+        if rs.has_error(res, i):
+            continue
         try:
             d = r["deps"]
             if d[0] == "set":
@@ -247,17 +337,20 @@ def run(ctx):
     for i, c in enumerate(cases):
         if c.get("perturb"):
             ctx.nontrivial.add(json.dumps(c["pexp"]))
+    cerrs += rs.case_errors(nres)
+    okrecs = [r for r in res["compiled"] if "case_error" not in r]
     shapes = {}
-    for r in res["compiled"]:
+    for r in okrecs:
         shapes[r["deps"][0]] = shapes.get(r["deps"][0], 0) + 1
     ctx.cov["input_distribution"] = {"cases": len(cases), "perturbation_cases": sum(1 for c in cases if c.get("perturb")),
                                      "ill_formed": sum(1 for c in cases if c.get("wellformed") is False),
                                      "classes_discovered": conc, "classes_covered": len(seen_cls & set(conc)),
                                      "slots_required": len(required_slots), "slots_covered": len(set(required_slots) & seen_slots),
                                      "result_shapes": shapes, "nested_layout_cases": len(ncases), "nested_probes_compared": nprobes,
-                                     "deps_size_hist": {str(k): sum(1 for r in res["compiled"] if r["deps"][0] == "set" and len(r["deps"][1]) == k) for k in range(0, 12)}}
-    ctx.samples = [{"term": res["compiled"][0]["term"], "deps": res["compiled"][0]["deps"]},
-                   {"pexp": cases[-1].get("pexp"), "deps": res["compiled"][-1]["deps"]}]
+                                     "deps_size_hist": {str(k): sum(1 for r in okrecs if r["deps"][0] == "set" and len(r["deps"][1]) == k) for k in range(0, 12)},
+                                     "twin_location_cases": sum(1 for c in cases if "twin" in c)}
+    ctx.samples = [{"term": res["compiled"][0].get("term"), "deps": res["compiled"][0].get("deps")},
+                   {"twin case": cases[-1].get("pexp") or cases[-1].get("term"), "deps": res["compiled"][-1].get("deps")}]
     ctx.obligations.append(("correspondence: _get_dependencies() = model deps over GenRefs.v = syntactic occurrences, both builds",
                             coq_ok and not mism and not build_diff, f"{len(mism)} mismatching, {len(build_diff)} differing between builds, of {len(cases)}"))
     ctx.obligations.append(("correspondence (nested layouts): ref._tasks and ref._find_dependant_targets() = model (tasks_of / dependants over the occurrence sets), both builds agree",
@@ -265,6 +358,8 @@ def run(ctx):
     ctx.obligations.append(("oracle: reported set = locations found by an independent slot walk; perturbation through set_value", not oracle_fail, f"{len(oracle_fail)} failing"))
     ctx.obligations.append(("coverage: every BaseRef subclass found by introspection is known to the translator and was exercised, every operand slot held a reference",
                             not unknown and not missing_cls and not missing_slots, f"unknown={unknown} classes not exercised={missing_cls} slots not exercised={missing_slots}"))
+    ctx.obligations.append(("no case ended by an exception of the library outside the steps whose exceptions are outcomes (construction, printing, hashing ...)", not cerrs,
+                            "" if not cerrs else f"{len(cerrs)} cases, first: {cerrs[0][2]}"))
 
     if oracle_fail:
         i, b = oracle_fail[0]
@@ -272,8 +367,9 @@ def run(ctx):
         bad, r = case_fails(small, ids, b)
         vlib.violation(ctx, {"kind": "oracle", "what": "reported dependencies differ from the locations the expression reads", "build": b,
                              "case": small, "observed": r, "problems": r.get("oracle"), "how_to_replay": "./check C05 --replay <this file>"})
-    elif mism or nmism or ndiff or build_diff or unknown or missing_cls or missing_slots or not proof_ok or not coq_ok:
+    elif mism or nmism or ndiff or build_diff or unknown or missing_cls or missing_slots or cerrs or not proof_ok or not coq_ok:
         what = list(getattr(ctx, "broken", []))
+        rs.describe_errors(cerrs, what)
         if nmism:
             i = nmism[0]
             what.append(f"nested-layout correspondence (_tasks / _find_dependant_targets) broke on {len(nmism)} cases, first: defs={json.dumps(ncases[i]['defs'])} observed={json.dumps(nres['compiled'][i].get('probes'))[:1200]}")
@@ -288,7 +384,7 @@ def run(ctx):
             what.append("node classes / functions the translator does not know (tie broken): " + ", ".join(unknown))
         if missing_cls or missing_slots:
             what.append(f"not exercised: classes {missing_cls} slots {missing_slots}")
-        extra = gen_cases(ctx, tg, 8000, 1500)
+        extra = gen_cases(ctx, tg, 8000, 1500) + gen_twin_cases(ctx, tg, 1200)
         res2, _ = run_cases(extra, ids)
         found = None
         for b in ("compiled", "pure"):
